@@ -32,7 +32,8 @@ def one(case, pl):
     sl, al = list(mdp.state_list), list(mdp.action_list)
     res = {"state_list": sl, "action_list": al,
            "absorbing_vec": [bool(x) for x in mdp.absorbing_state_vec],
-           "unable_vec": [bool(x) for x in mdp._unable_to_reach_absorbing],
+           # private attribute: cross-checked against the model when present, not required to exist
+           "unable_vec": [bool(x) for x in mdp._unable_to_reach_absorbing] if hasattr(mdp, "_unable_to_reach_absorbing") else None,
            "planners": {}}
     uv = float("-inf") if case["undefined_value"] == "-inf" else fl(case["undefined_value"])
     eps, mi = fl(case["max_residual"]), int(case["max_iterations"])
